@@ -355,6 +355,7 @@ def params_bound(ctx):
 
 
 def cases_params(ctx):
+    yield from _regressions("C14.params.purity")
     b = params_bound(ctx)
     for n in range(b["n"] + 1):
         for lens in itertools.product(range(b["lmax"] + 1), repeat=n):
@@ -721,17 +722,6 @@ def _bucket_maps(loader, lens, nb, bs, dyn):
     return idx2bucket, bucket2size, spec_params(lens, nb, bs, dyn, idx2bucket, bucket2size)
 
 
-def _params_dependency(lens, nb, bs, dyn):
-    """True when the bucket-parameter function already breaks its own contract on this data set (decided and
-    reported under C14.params.purity; the loader clauses depend on it instead of reporting it again)"""
-    if nb <= 1:
-        return False
-    try:
-        return check_params({"lens": list(lens), "nb": nb, "bs": bs, "dyn": dyn}) is not None
-    except Exception:
-        return True
-
-
 def _epochs_protocol(mk, check_epoch, n_epochs=2):
     """len before every epoch = batches yielded; structure of every epoch; identical batches for identical
     (seed, epoch): epoch 1 by iteration == epoch 1 by init_epoch; epoch 0 again by assigning .epoch"""
@@ -766,8 +756,6 @@ def check_loader_spect(case):
     lens, bs, nb, dyn, drop = case["lens"], case["bs"], case["nb"], bool(case["dyn"]), bool(case["drop"])
     sort, bf, sup_ali, sup_utt = bool(case["sort"]), bool(case["bf"]), bool(case["sup_ali"]), bool(case["sup_utt"])
     refkind, with_ali = case["refkind"], bool(case["with_ali"])
-    if _params_dependency(lens, nb, bs, dyn):
-        return None
     se = refkind == "1d+se"
     ids = [_uid(i) for i in range(len(lens))]
     cm = _quiet()
@@ -849,8 +837,6 @@ def check_loader_lang(case):
     if se:
         rl = [L + 1 for L in rl]  # never an empty stored transcript with sos/eos (C12's business)
     lens = [L + 2 * se for L in rl]
-    if _params_dependency(lens, nb, bs, dyn):
-        return None
     ids = [_uid(i) for i in range(len(rl))]
     cm = _quiet()
     try:
@@ -964,8 +950,6 @@ def check_loader_dist(case):
 
     lens, bs, nb, dyn, drop, W, mode = case["lens"], case["bs"], case["nb"], bool(case["dyn"]), bool(case["drop"]), case["W"], case["mode"]
     n = len(lens)
-    if _params_dependency(lens, nb, bs, dyn):
-        return None
     if mode == "raise" and n % W and not drop:
         return None  # construction legitimately raises (C13)
     ids = [_uid(i) for i in range(n)]
@@ -1097,6 +1081,7 @@ def loader_bound(ctx):
 
 
 def cases_loader_spect(ctx):
+    yield from _regressions("C14.loader.spect")
     b = loader_bound(ctx)
     k = 0
     for lens in _datasets(ctx, b["small"], (1, 2, 3), SPECT_EXTRA):
@@ -1118,6 +1103,7 @@ LANG_PROFILES = [dict(zip(("sort", "bf", "sup_utt"), bits)) for bits in itertool
 
 
 def cases_loader_lang(ctx):
+    yield from _regressions("C14.loader.lang")
     b = loader_bound(ctx)
     k = 0
     for lens in _datasets(ctx, b["small"], (0, 1, 2), LANG_EXTRA):
@@ -1158,6 +1144,7 @@ DIST_SETS = [(1, 1, 1, 1, 3, 3, 3, 3), (1, 2, 3, 4, 5, 6), (2, 2, 2, 5, 5, 1, 7)
 
 
 def cases_loader_dist(ctx):
+    yield from _regressions("C14.loader.dist")
     k = 0
     for lens in DIST_SETS:
         for W in ((2, 3) if ctx.quick else (2, 3, 4)):
@@ -1177,6 +1164,7 @@ DEPRECATED = ("SpectTrainingDataLoader", "SpectEvaluationDataLoader", "ContextWi
 
 
 def cases_loader_deprecated(ctx):
+    yield from _regressions("C14.loader.deprecated")
     for cls in DEPRECATED:
         for lens in [[], [2], [1, 2, 3], [2, 2, 2, 5, 5, 1, 7]] + ([] if ctx.quick else [[3, 1, 2, 2], [1, 1, 1, 1, 9]]):
             for bs in (1, 2, 3):
@@ -1186,45 +1174,45 @@ def cases_loader_deprecated(ctx):
 
 
 # ---------------------------------------------------------------------------------------------------------------
-# findings on the unchanged tree
+# findings: none open. The five defects this driver found in the tree it was written against (KF-C14-1..5) were
+# repaired in /repo (commits fd6ecaa..752f07b); their witnesses stay as named regression cases, which every tier
+# runs first in the clause that exposed them (plus the same inputs pushed through the loaders).
 
-FINDINGS = [
-    {"id": "KF-C14-1", "property": "C14", "clause": "C14.params.purity",
-     "what": "_get_bucket_batch_sampler_params raises IndexError on an empty data set, so SpectDataLoader/LangDataLoader cannot be built on an empty directory once num_length_buckets > 1 "
-             "(with one bucket the same directory gives a loader of length 0)",
-     "class": "data set with no utterances (the function is only reached with num_length_buckets > 1)",
-     "witness": {"lens": [], "nb": 2, "bs": 1, "dyn": False}},
-    {"id": "KF-C14-2", "property": "C14", "clause": "C14.params.purity",
-     "what": "_get_bucket_batch_sampler_params with size_batch_by_length divides by the upper length bound of a bucket: ZeroDivisionError when a bucket holds only zero-length utterances "
-             "(empty transcripts for LangDataLoader), instead of any positive size",
-     "class": "dynamic sizing and the shortest length class has maximum length 0",
-     "witness": {"lens": [0], "nb": 1, "bs": 1, "dyn": True}},
-    {"id": "KF-C14-3", "property": "C14", "clause": "C14.loader.lang",
-     "what": "LangDataLoader with num_length_buckets > 1 measures x[0].size(0) on LangDataSet items, which are bare tensors when suppress_uttids=True (the data set's default): IndexError for "
-             "1-D references, and with tokens_only=False every utterance gets 'length' 3 so all lengths are batched together",
-     "class": "LangDataLoader, num_length_buckets > 1, suppress_uttids=True, non-empty data set",
-     "witness": {"lens": [1], "bs": 1, "nb": 2, "dyn": False, "drop": False, "shuffle": False, "sort": False, "bf": False, "sup_utt": True, "refkind": "1d", "seed": 3}},
-    {"id": "KF-C14-4", "property": "C14", "clause": "C14.loader.deprecated",
-     "what": "SpectTrainingDataLoader / SpectEvaluationDataLoader pass seed positionally into SpectDataLoader's on_uneven_distributed slot: construction raises ValueError; with drop_last "
-             "(which overrides that slot) construction succeeds but the seed is lost, so equal (seed, epoch) give different batches",
-     "class": "cls in {SpectTrainingDataLoader, SpectEvaluationDataLoader}: every construction without drop_last; with drop_last the shuffled order ignores seed",
-     "witness": {"cls": "SpectEvaluationDataLoader", "lens": [], "bs": 1, "drop": False, "seed": None}},
-    {"id": "KF-C14-5", "property": "C14", "clause": "C14.loader.dist",
-     "what": "SpectDataLoader/LangDataLoader cache len() from the first epoch asked; with length buckets, shuffling and a process group of more than one rank the number of this rank's "
-             "utterances per bucket, hence the number of batches, changes from epoch to epoch and len(loader) goes stale",
-     "class": "num_length_buckets > 1, shuffle, process group with W > 1 that is not ignored (drop_last overrides 'ignore'), any epoch after the one in which len() was first taken",
-     "witness": {"kind": "spect", "lens": [1, 1, 3], "W": 2, "mode": "uneven", "seed": 2, "epochs": 2, "bs": 2, "nb": 2, "dyn": False, "drop": False, "shuffle": True}},
+FINDINGS = []
+KNOWN_MATCH = {}
+
+_LOADER_BASE = dict(bs=1, nb=2, dyn=False, drop=False, shuffle=False, sort=False, bf=False, sup_utt=True, seed=3)
+REGRESSIONS = [
+    # KF-C14-1: IndexError on an empty data set once num_length_buckets > 1
+    {"name": "KF-C14-1.empty_data_set", "clause": "C14.params.purity", "case": {"lens": [], "nb": 2, "bs": 1, "dyn": False}},
+    {"name": "KF-C14-1.empty_data_set.spect_loader", "clause": "C14.loader.spect", "case": dict(_LOADER_BASE, lens=[], sup_ali=True, refkind="1d", with_ali=False)},
+    {"name": "KF-C14-1.empty_data_set.lang_loader", "clause": "C14.loader.lang", "case": dict(_LOADER_BASE, lens=[], refkind="1d")},
+    # KF-C14-2: ZeroDivisionError with dynamic sizing when a bucket holds only zero-length utterances
+    {"name": "KF-C14-2.dynamic_zero_length_bucket", "clause": "C14.params.purity", "case": {"lens": [0], "nb": 1, "bs": 1, "dyn": True}},
+    {"name": "KF-C14-2.dynamic_zero_length_bucket.lang_loader", "clause": "C14.loader.lang", "case": dict(_LOADER_BASE, lens=[0, 0, 2, 3], dyn=True, sup_utt=False, refkind="1d")},
+    {"name": "KF-C14-2.dynamic_zero_length_bucket.spect_loader", "clause": "C14.loader.spect",
+     "case": dict(_LOADER_BASE, lens=[0, 0, 3, 2, 5, 5], nb=3, bs=2, dyn=True, sup_ali=True, refkind="none", with_ali=False)},
+    # KF-C14-3: LangDataLoader with buckets measured x[0].size(0) on bare-tensor items (suppress_uttids=True)
+    {"name": "KF-C14-3.lang_buckets_without_ids", "clause": "C14.loader.lang", "case": dict(_LOADER_BASE, lens=[1], refkind="1d")},
+    {"name": "KF-C14-3.lang_buckets_without_ids.segments", "clause": "C14.loader.lang", "case": dict(_LOADER_BASE, lens=[1, 4, 2, 5, 3], bs=2, refkind="3d")},
+    {"name": "KF-C14-3.lang_buckets_without_ids.empty_transcript", "clause": "C14.loader.lang", "case": dict(_LOADER_BASE, lens=[0, 2], refkind="1d")},
+    # KF-C14-4: deprecated Spect loaders passed seed into the on_uneven_distributed slot
+    {"name": "KF-C14-4.deprecated_seed_slot", "clause": "C14.loader.deprecated", "case": {"cls": "SpectEvaluationDataLoader", "lens": [], "bs": 1, "drop": False, "seed": None}},
+    {"name": "KF-C14-4.deprecated_seed_lost_with_drop_last", "clause": "C14.loader.deprecated",
+     "case": {"cls": "SpectTrainingDataLoader", "lens": [1, 2, 3], "bs": 1, "drop": True, "seed": 5}},
+    # KF-C14-5: len() cached across epochs under a process group
+    {"name": "KF-C14-5.stale_len_under_process_group", "clause": "C14.loader.dist",
+     "case": {"kind": "spect", "lens": [1, 1, 3], "W": 2, "mode": "uneven", "seed": 2, "epochs": 2, "bs": 2, "nb": 2, "dyn": False, "drop": False, "shuffle": True}},
+    {"name": "KF-C14-5.stale_len_under_process_group.drop_overrides_ignore", "clause": "C14.loader.dist",
+     "case": {"kind": "lang", "lens": [1, 1, 3], "W": 3, "mode": "ignore", "seed": 4, "epochs": 3, "bs": 1, "nb": 2, "dyn": True, "drop": True, "shuffle": True}},
 ]
 
-KNOWN_MATCH = {
-    "KF-C14-1": lambda case, msg: len(case["lens"]) == 0 and "IndexError" in msg,
-    "KF-C14-2": lambda case, msg: bool(case.get("dyn")) and len(case["lens"]) > 0 and min(case["lens"]) == 0 and "ZeroDivisionError" in msg,
-    "KF-C14-3": lambda case, msg: bool(case.get("sup_utt")) and case.get("nb", 1) > 1 and len(case["lens"]) > 0 and "refkind" in case and "with_ali" not in case
-    and ("IndexError" in msg or "length classes" in msg),
-    "KF-C14-4": lambda case, msg: case.get("cls") in ("SpectTrainingDataLoader", "SpectEvaluationDataLoader") and (("on_uneven_distributed" in msg and "ValueError" in msg) or (bool(case.get("drop")) and "same (seed, epoch)" in msg)),
-    "KF-C14-5": lambda case, msg: case.get("nb", 1) > 1 and bool(case.get("shuffle")) and (case.get("W") or 1) > 1 and (case.get("mode") != "ignore" or bool(case.get("drop"))) and "len(loader) =" in msg
-    and ", epoch 0:" not in msg,
-}
+
+def _regressions(clause):
+    for r in REGRESSIONS:
+        if r["clause"] == clause:
+            yield dict(r["case"], regression=r["name"])
+
 
 CHECKERS = {
     "C14.bucket.iter": check_bucket_iter,
@@ -1361,6 +1349,6 @@ def run_bounded(ctx):
         "utterances are float32 feature matrices with 2 coefficients, int64 alignments and references with values that never equal a pad value; contents do not influence batching",
         "utterance ids are u00, u01, ... (sorted order = index order); default file prefix/suffix and sub-directory names",
         "when ids are suppressed a row is attributed to any not-yet-delivered utterance with identical contents",
-        "loader clauses skip data sets on which _get_bucket_batch_sampler_params already breaks its own contract (decided once, under C14.params.purity)",
+        "the named regression witnesses of the repaired defects KF-C14-1..5 (REGRESSIONS) are run first in their clauses in every tier",
         "the (R,3) sos/eos row convention is not exercised through the loaders (sos/eos only with token-only references; C12 covers the convention)",
     )
